@@ -199,6 +199,38 @@ func sStructural(x *vc.Exec, lr *vc.LoadResult, frames []vc.FrameDecl, res *vc.P
 		}
 	}
 	sink.Structural("scheduler", "frame", "blocking-operations-counted", []string{"C05", "C06", "C09"}, true, fmt.Sprintf("%d blocking channel operations in package scheduler", nBlocking))
+	// C03 / C06: besides its four go statements the package starts no goroutine
+	// indirectly: no call to a library function that may start one on the
+	// caller's behalf (context.WithCancel & co. start a goroutine per derived
+	// context when the parent is not a standard context; time.AfterFunc,
+	// signal.Notify, ...).
+	spawners := map[string]bool{
+		"context.WithCancel": true, "context.WithCancelCause": true, "context.WithDeadline": true, "context.WithDeadlineCause": true,
+		"context.WithTimeout": true, "context.WithTimeoutCause": true, "context.AfterFunc": true, "time.AfterFunc": true,
+		"os/signal.Notify": true, "os/signal.NotifyContext": true,
+	}
+	nSpawnCalls := 0
+	for name, fn := range lr.Funcs {
+		if !(strings.HasPrefix(name, "go.uber.org/cff/scheduler::") || strings.HasPrefix(name, "go.uber.org/cff::")) || len(fn.Blocks) == 0 {
+			continue
+		}
+		if strings.HasSuffix(fset.Position(fn.Pos()).Filename, "_test.go") {
+			continue
+		}
+		for _, b := range fn.Blocks {
+			for _, in := range b.Instrs {
+				c, ok := in.(ssa.CallInstruction)
+				if !ok {
+					continue
+				}
+				if f, ok := c.Common().Value.(*ssa.Function); ok && spawners[f.String()] {
+					nSpawnCalls++
+					sink.Structural(fn.Name(), "frame", "no-library-call-that-may-start-a-goroutine", []string{"C03", "C06"}, false, f.String()+" at "+pos(in)+" may start a goroutine per call (one per job or per directive): goroutines are no longer bounded by the concurrency limit")
+				}
+			}
+		}
+	}
+	sink.Structural("scheduler", "frame", "no-library-call-that-may-start-a-goroutine", []string{"C03", "C06"}, true, fmt.Sprintf("%d calls of goroutine-starting library functions in packages scheduler and cff", nSpawnCalls))
 	sink.Structural("scheduler", "frame", "go-statements-counted", []string{"C03", "C06"}, nGo == 4, fmt.Sprintf("%d go statements in package scheduler (spawner, loop, worker in the spawner, successor in worker$1)", nGo))
 	var keys []string
 	for k := range acc {
